@@ -20,6 +20,15 @@ thread_local! {
     pub static PROBE: RefCell<Probe> = RefCell::new(Probe::default());
     /// scheduling hook: called at every scalar operation (set by the sched engine)
     pub static POINT_HOOK: RefCell<Option<Box<dyn Fn()>>> = const { RefCell::new(None) };
+    /// environment deviation for C16: the `which`-th call of `Tr::inv` on this thread (usize::MAX: every call) answers
+    /// `factor / x` instead of `1 / x` (a scalar type with an inexact reciprocal)
+    pub static INV_FAULT: std::cell::Cell<Option<(usize, f64)>> = const { std::cell::Cell::new(None) };
+    pub static INV_CALLS: std::cell::Cell<usize> = const { std::cell::Cell::new(0) };
+}
+
+pub fn set_inv_fault(f: Option<(usize, f64)>) {
+    INV_FAULT.with(|c| c.set(f));
+    INV_CALLS.with(|c| c.set(0));
 }
 
 pub fn probe_reset() {
@@ -183,7 +192,16 @@ impl MomTropFloat for Tr {
     un!(abs, f64::abs);
     fn inv(&self) -> Self {
         tick();
-        Tr { v: 1.0 / self.v, deps: self.deps }
+        let k = INV_CALLS.with(|c| {
+            let k = c.get();
+            c.set(k + 1);
+            k
+        });
+        let num = match INV_FAULT.with(|c| c.get()) {
+            Some((which, factor)) if which == usize::MAX || which == k => factor,
+            _ => 1.0,
+        };
+        Tr { v: num / self.v, deps: self.deps }
     }
     fn powf(&self, p: &Self) -> Self {
         tick();
